@@ -105,6 +105,14 @@ func TestMain(m *testing.M) {
 	srv.Start()
 	srv.Config.ErrorLog = nil
 	routes = routesFromSource()
+	// net/http's mux serves HEAD on every pattern registered for GET: each of those is a route of the API too
+	for _, rt := range routes {
+		if rt.Method == "GET" {
+			head := rt
+			head.Method = "HEAD"
+			routes = append(routes, head)
+		}
+	}
 	ev.Main(m, "C20")
 }
 
@@ -281,6 +289,11 @@ func do(r reqSpec) (int, http.Header, string) {
 	if r.Body != "" {
 		req.Header.Set("Content-Type", "application/json")
 	}
+	if r.Method == "HEAD" {
+		// the answer to a HEAD ends with its header; a handler that keeps running (the log stream) must not be
+		// sitting on a connection the client pool hands to the next request
+		req.Close = true
+	}
 	for k, v := range r.Headers {
 		req.Header.Set(k, v)
 	}
@@ -331,7 +344,7 @@ type RouteCase struct {
 }
 
 var subRoutes = ev.Register("route-table",
-	"every registered API route and method (enumerated from the source with go/parser: the endpoints literal, each type's Path() and EndpointMethods() literals; each must also exist on the real mux) x cookie class (absent, random, logged-out, expired by 1 ms .. 1 h, live) x Origin / Sec-Fetch-Site combination, against the real mux wrapped in middleware.Harden with a migrated scratch database; oracle: a route other than login without a live cookie answers 401 and changes nothing (configuration vector, var/config.json, password hashes); with a live cookie it does not answer 401; a cross-site request (Sec-Fetch-Site: cross-site with or without an Origin; a foreign or opaque Origin without Sec-Fetch-Site) and an OPTIONS with an Origin answer 403 and change nothing, a request whose Origin is the dashboard's own is treated like one without; non-trivial = not (GET with no cookie and no site headers); distinct by (route, cookie class, margin class, site class)",
+	"every registered API route and method (enumerated from the source with go/parser: the endpoints literal, each type's Path() and EndpointMethods() literals; each must also exist on the real mux; plus HEAD on every GET route, which the mux serves as well) x cookie class (absent, random, logged-out, expired by 1 ms .. 1 h, live) x Origin / Sec-Fetch-Site combination, against the real mux wrapped in middleware.Harden with a migrated scratch database; oracle: a route other than login without a live cookie answers 401 and changes nothing (configuration vector, var/config.json, password hashes); with a live cookie it does not answer 401; a cross-site request (Sec-Fetch-Site: cross-site with or without an Origin; a foreign or opaque Origin without Sec-Fetch-Site) and an OPTIONS with an Origin answer 403 and change nothing, a request whose Origin is the dashboard's own is treated like one without; non-trivial = not (GET with no cookie and no site headers); distinct by (route, cookie class, margin class, site class)",
 	func(c RouteCase, o *ev.Obs) *ev.Failure {
 		if len(routes) == 0 {
 			return ev.Failf("routes.none-found", "no routes could be enumerated from the source")
